@@ -813,14 +813,15 @@ pub fn branches<'a>(e: &'a syn::Expr) -> Option<(String, Vec<Branch<'a>>)> {
 
 /// Normal form of a skipping loop: `while let P = S { body }` / `loop { match S { P => body, _ => break } }` /
 /// `while matches!(S, P) { body }`: (scrutinee, pattern, body).
-pub fn skip_loop<'a>(e: &'a syn::Expr) -> Option<(String, CPat, Vec<&'a syn::Stmt>)> {
+pub fn skip_loop(e: &syn::Expr) -> Option<(String, CPat, Vec<String>)> {
+    // body as compact statement texts (a bare-expression arm is one statement)
     match e {
         syn::Expr::While(w) => {
             let (s, p, neg) = test_of(&w.cond)?;
             if neg {
                 return None;
             }
-            Some((s, p, w.body.stmts.iter().collect()))
+            Some((s, p, w.body.stmts.iter().map(|x| sm::tsc(x)).collect()))
         }
         syn::Expr::Loop(l) => {
             if l.body.stmts.len() != 1 {
@@ -836,12 +837,11 @@ pub fn skip_loop<'a>(e: &'a syn::Expr) -> Option<(String, CPat, Vec<&'a syn::Stm
             }
             let is_break = |b: &Branch| (b.body.len() == 1 && sm::tsc(b.body[0]).trim_end_matches(';') == "break") || b.tail.map_or(false, |t| sm::tsc(t) == "break");
             if is_break(&brs[1]) && matches!(brs[1].pat, CPat::Wild) && !is_break(&brs[0]) {
-                let mut body = brs[0].body.clone();
-                if body.is_empty() {
-                    // a bare-expression arm: keep as a synthetic statement is not possible; treat as unknown
-                    return None;
+                let mut body: Vec<String> = brs[0].body.iter().map(|x| sm::tsc(*x)).collect();
+                if let Some(t) = brs[0].tail {
+                    body.push(sm::tsc(t));
                 }
-                Some((s, brs[0].pat.clone(), std::mem::take(&mut body)))
+                Some((s, brs[0].pat.clone(), body))
             } else {
                 None
             }
@@ -969,7 +969,7 @@ fn interp_expr(e: &syn::Expr, mut st: TState, res: &mut ArmResult, guard: &Optio
     let t = sm::tsx(e);
     // ---- decisions on the character window, in normal form
     if let Some((scrut, pat, body)) = skip_loop(e) {
-        let only_next_char = body.len() == 1 && sm::tsc(body[0]).trim_end_matches(';') == "self.next_char()";
+        let only_next_char = body.len() == 1 && body[0].trim_end_matches(';') == "self.next_char()";
         if scrut == "self.window[0]" && only_next_char && matches!(pat, CPat::Chars(_)) {
             st.spelled.push('*');
             st.known = vec![];
@@ -1336,6 +1336,36 @@ fn method_block_text(lx: &Src, name: &str) -> Option<String> {
     lexer_method(lx, name).map(|m| sm::tsc(&m.block))
 }
 
+/// Compact statement texts of a block in which every immutable local bound to `self.get_pos()` is replaced by that
+/// call (and its `let` dropped): `let p = self.get_pos(); emit(.., p)` and `emit(.., self.get_pos())` read the same.
+/// Sound for comparison as long as nothing is consumed between the `let` and the use, which the byte-accounting
+/// and range rules check separately.
+fn stmts_with_positions_inlined(stmts: &[syn::Stmt], outer: &[String]) -> Vec<String> {
+    let mut pos_locals: Vec<String> = outer.to_vec();
+    let mut out = vec![];
+    for st in stmts {
+        if let syn::Stmt::Local(l) = st {
+            if let (Some(init), syn::Pat::Ident(pi)) = (&l.init, &l.pat) {
+                if pi.mutability.is_none() && sm::tsc(&init.expr) == "self.get_pos()" {
+                    pos_locals.push(pi.ident.to_string());
+                    continue;
+                }
+            }
+        }
+        let c = sm::tsx(st);
+        let mut text = String::new();
+        for tk in &c.toks {
+            if pos_locals.contains(tk) {
+                text.push_str("self.get_pos()");
+            } else {
+                text.push_str(tk);
+            }
+        }
+        out.push(text);
+    }
+    out
+}
+
 /// I1/I3: Indent/Dedent pairing with the indentation stack.
 pub fn indent_pairing(cx: &mut Ctx, rule: &str) {
     cx.rule(rule, "every indentations.push is immediately followed by one emit(Indent) and every indentations.pop by one emit(Dedent) in the same block; Indent/Dedent are emitted only from handle_indentations (after the `nesting != 0 => return` test) and from the end-of-input flush `while !indentations.is_empty()`; the Indent range is tok_pos - spaces - tabs .. tok_pos and Dedent ranges are empty at the current position; the stack never pops its base level");
@@ -1358,8 +1388,20 @@ pub fn indent_pairing(cx: &mut Ctx, rule: &str) {
         use syn::visit::Visit;
         let mut bv = BV { blocks: vec![] };
         bv.visit_block(&f.block);
+        // immutable locals of this function that hold `self.get_pos()`
+        let mut fn_pos_locals: Vec<String> = vec![];
+        sm::for_each_stmt_in_block(&f.block, &mut |st| {
+            if let syn::Stmt::Local(l) = st {
+                if let (Some(init), syn::Pat::Ident(pi)) = (&l.init, &l.pat) {
+                    if pi.mutability.is_none() && sm::tsc(&init.expr) == "self.get_pos()" {
+                        fn_pos_locals.push(pi.ident.to_string());
+                    }
+                }
+            }
+        });
         for b in bv.blocks {
-            let ts: Vec<String> = b.stmts.iter().map(|s| sm::tsc(s)).collect();
+            // statement texts with position locals (`let x = self.get_pos();`) replaced by the call they hold
+            let ts: Vec<String> = stmts_with_positions_inlined(&b.stmts, &fn_pos_locals);
             for (i, t) in ts.iter().enumerate() {
                 let is_push = t.starts_with("self.indentations.push(");
                 let is_pop = t == "self.indentations.pop();";
@@ -1391,10 +1433,10 @@ pub fn indent_pairing(cx: &mut Ctx, rule: &str) {
                 if emits_dedent && !(i > 0 && ts[..i].iter().rev().take(2).any(|x| x == "self.indentations.pop();")) {
                     cx.fail(rule, &format!("{}/dedent-without-pop/{}", rule, fname), &lx.loc(f), "emit(Dedent) without a preceding indentations.pop");
                 }
-                if emits_indent && !t.contains("TextRange::new(tok_pos-TextSize::new(indentation_level.spaces)-TextSize::new(indentation_level.tabs),tok_pos,)") {
+                if emits_indent && !t.contains("TextRange::new(self.get_pos()-TextSize::new(indentation_level.spaces)-TextSize::new(indentation_level.tabs),self.get_pos(),)") && !t.contains("TextRange::new(self.get_pos()-TextSize::new(indentation_level.spaces)-TextSize::new(indentation_level.tabs),self.get_pos())") {
                     cx.fail(rule, &format!("{}/indent-range", rule), &lx.loc(f), "the Indent range is not tok_pos - spaces - tabs .. tok_pos");
                 }
-                if emits_dedent && !t.contains("TextRange::empty(tok_pos)") {
+                if emits_dedent && !t.contains("TextRange::empty(self.get_pos())") {
                     cx.fail(rule, &format!("{}/dedent-range/{}", rule, fname), &lx.loc(f), "a Dedent range is not TextRange::empty(tok_pos)");
                 }
             }
@@ -1411,18 +1453,13 @@ pub fn indent_pairing(cx: &mut Ctx, rule: &str) {
             } else {
                 cx.fail(rule, &format!("{}/nesting-first", rule), &lx.rel, "handle_indentations does not test `nesting != 0 => return` before comparing indentation");
             }
-            // let tok_pos = self.get_pos() precedes each emit
-            if t.matches("lettok_pos=self.get_pos();").count() == 2 {
-                cx.ok(rule, "tok_pos = get_pos() is taken at both emit sites");
-            } else {
-                cx.fail(rule, &format!("{}/tok_pos", rule), &lx.rel, "tok_pos is not get_pos() at the Indent and Dedent emit sites");
-            }
         }
         None => cx.anchor_missing(rule, "Lexer::handle_indentations"),
     }
     // EOF flush
     match method_block_text(&lx, "consume_normal") {
         Some(t) => {
+            let t = t.replace("TextRange::empty(self.get_pos())", "TextRange::empty(tok_pos)");
             if t.contains("while!self.indentations.is_empty(){self.indentations.pop();self.emit((Tok::Dedent,TextRange::empty(tok_pos)));}self.emit((Tok::EndOfFile,TextRange::empty(tok_pos)));") {
                 cx.ok(rule, "end of input: every open level is popped with a Dedent before EndOfFile");
             } else {
